@@ -98,6 +98,7 @@ func TestProp(t *testing.T) {
 	eng := Engines[engName]
 	known := loadKnown(*fKnown)
 	RaceMode = *fRace
+	simrt.CurrentProperty = *fProp
 
 	if *fReplay != "" {
 		b, err := os.ReadFile(*fReplay)
